@@ -89,3 +89,68 @@ func boundsSurvey(c *Ctx) {
 	}
 	fmt.Printf("TOTAL index operations proved in range: %d / %d\n", P, T)
 }
+
+// siblingSurvey (debug only, -dump @siblings): for every method name that several types of package lz implement,
+// the may-write keys of each implementation, printed side by side with the keys that not all siblings share. A
+// discovery aid for sibling disagreements; not a rule.
+func siblingSurvey(c *Ctx) {
+	byName := map[string][]*ssa.Function{}
+	for _, fn := range c.allFuncs {
+		if fn.Pkg != c.lz || fn.Signature.Recv() == nil || fn.Parent() != nil || fn.Blocks == nil {
+			continue
+		}
+		byName[fn.Name()] = append(byName[fn.Name()], fn)
+	}
+	var names []string
+	for n, fs := range byName {
+		if len(fs) >= 2 {
+			names = append(names, n)
+		}
+	}
+	sort.Strings(names)
+	for _, n := range names {
+		fs := byName[n]
+		sort.Slice(fs, func(i, j int) bool { return fs[i].String() < fs[j].String() })
+		count := map[string]int{}
+		sets := make([]map[string]bool, len(fs))
+		for i, fn := range fs {
+			sets[i] = map[string]bool{}
+			for _, k := range c.mayWrite(fn) {
+				// last two path components: type-specific prefixes differ between siblings
+				parts := []byte(k)
+				_ = parts
+				short := k
+				if j := lastIndexN(k, '.', 2); j >= 0 {
+					short = k[j+1:]
+				}
+				if !sets[i][short] {
+					sets[i][short] = true
+					count[short]++
+				}
+			}
+		}
+		fmt.Printf("== %s (%d implementations)\n", n, len(fs))
+		for i, fn := range fs {
+			var odd []string
+			for k := range sets[i] {
+				if count[k] < len(fs) {
+					odd = append(odd, fmt.Sprintf("%s(%d/%d)", k, count[k], len(fs)))
+				}
+			}
+			sort.Strings(odd)
+			fmt.Printf("   %-55s %d keys; not shared by all: %v\n", fnName(fn), len(sets[i]), odd)
+		}
+	}
+}
+
+func lastIndexN(s string, ch byte, n int) int {
+	for i := len(s) - 1; i >= 0; i-- {
+		if s[i] == ch {
+			n--
+			if n == 0 {
+				return i
+			}
+		}
+	}
+	return -1
+}
